@@ -303,10 +303,11 @@ def _safe_remove(el: etree.Element):
 
 
 def _id_of_target(url):
-    match = re.match(r"^url[(]#([\w-]+)[)]$", url)
+    # any id an XML document may carry (dots, colons, ...), optionally quoted
+    match = re.match(r"""^url[(]\s*(["']?)#([^\s"'()]+)\1\s*[)]$""", url)
     if not match:
         raise ValueError(f'Unrecognized url "{url}"')
-    return match.group(1)
+    return match.group(2)
 
 
 def _xpath_for_url(url, el_tag):
